@@ -19,6 +19,57 @@
 //        2 qfrc_applied, 3 xfrc_applied of its body) -> like S, followed by nv nv_awake dof
 #include "mjgen.h"
 
+// models whose control vector is longer than the actuator list (multi-input actuators: SO3 orientation servo,
+// PID servo with 2-3 inputs) in random order with single-input ones: actuator index != control index
+static mjModel* CM = NULL; static unsigned long long cm_seed = 0;
+static mjModel* ctrl_model(unsigned long long seed) {
+  if (CM && cm_seed == seed) return CM;
+  if (CM) mj_deleteModel(CM);
+  mjg_rng R = { seed * 0x9E3779B97F4A7C15ULL + 7 }; mjg_rng* r = &R;
+  mjSpec* s = mj_makeSpec();
+  mjsBody* world = mjs_findBody(s, "world");
+  int nball = 1 + mjg_int(r, 2), nhinge = 1 + mjg_int(r, 3);
+  char nm[16];
+  for (int b = 0; b < nball + nhinge; b++) {
+    mjsBody* body = mjs_addBody(world, NULL); body->pos[0] = 2.0 * b; body->pos[2] = 1;
+    mjsJoint* j = mjs_addJoint(body, NULL); snprintf(nm, sizeof(nm), "j%d", b); mjs_setName(j->element, nm);
+    j->type = b < nball ? mjJNT_BALL : (mjg_chance(r, 0.3) ? mjJNT_SLIDE : mjJNT_HINGE);
+    if (b >= nball) { j->axis[0] = 0; j->axis[1] = 1; j->axis[2] = 0; }
+    mjsGeom* g = mjs_addGeom(body, NULL); g->type = mjGEOM_BOX; g->size[0] = 0.1; g->size[1] = 0.2; g->size[2] = 0.3; g->pos[0] = 0.2; g->contype = 0; g->conaffinity = 0;
+  }
+  int na = 2 + mjg_int(r, 4), multi = 0;
+  for (int k = 0; k < na; k++) {
+    mjsActuator* a = mjs_addActuator(s, NULL);
+    int kind = mjg_int(r, 5);
+    if (k == na - 1 && !multi) kind = mjg_int(r, 2);        // at least one multi-input actuator
+    double kv = mjg_range(r, 0.2, 2);
+    a->trntype = mjTRN_JOINT;
+    if (kind == 0) {             // SO3 orientation servo, 3 inputs, optionally with integrated setpoint
+      snprintf(nm, sizeof(nm), "j%d", mjg_int(r, nball)); mjs_setString(a->target, nm);
+      int quat = mjg_chance(r, 0.3);      // quat chart: 4 inputs, stateless only
+      mjs_setToOrientation(a, mjg_range(r, 2, 20), &kv, NULL, quat ? mjCHART_QUAT : mjCHART_EXPMAP);
+      if (!quat && mjg_chance(r, 0.6)) a->dyntype = mjDYN_INTEGRATOR;
+      multi = 1;
+    } else if (kind == 1) {      // PID with 2-3 inputs, optionally with integral state
+      snprintf(nm, sizeof(nm), "j%d", nball + mjg_int(r, nhinge)); mjs_setString(a->target, nm);
+      static const int specs[4] = {mjINPUT_POS | mjINPUT_VEL | mjINPUT_FF, mjINPUT_POS | mjINPUT_VEL, mjINPUT_VEL | mjINPUT_FF, mjINPUT_POS | mjINPUT_FF};
+      double ki = mjg_range(r, 0.5, 3), imax = 2;
+      int useki = mjg_chance(r, 0.5);     // controller states require the pos input
+      mjs_setToPID(a, mjg_range(r, 1, 10), &kv, NULL, useki ? &ki : NULL, &imax, NULL, 0, specs[useki ? (mjg_int(r, 2) ? 3 : mjg_int(r, 2)) : mjg_int(r, 4)]);
+      multi = 1;
+    } else {
+      snprintf(nm, sizeof(nm), "j%d", nball + mjg_int(r, nhinge)); mjs_setString(a->target, nm);
+      if (kind == 2) mjs_setToMotor(a); else if (kind == 3) mjs_setToVelocity(a, kv); else { mjs_setToPosition(a, 5, &kv, NULL, NULL, 0); }
+      if (kind == 4 && mjg_chance(r, 0.5)) { a->dyntype = mjDYN_FILTER; a->dynprm[0] = 0.05; }
+      if (mjg_chance(r, 0.4)) { a->ctrllimited = mjLIMITED_TRUE; a->ctrlrange[0] = -mjg_range(r, 0.5, 2); a->ctrlrange[1] = mjg_range(r, 0.5, 2); }
+    }
+  }
+  CM = mj_compile(s, NULL);
+  if (!CM) fprintf(stderr, "ctrl_model seed=%llu: %s\n", seed, mjs_getError(s));
+  mj_deleteSpec(s); cm_seed = seed;
+  return CM;
+}
+
 static mjModel* SM = NULL; static int sm_n = -1, sm_mask = -1, sm_shape = -1;
 static mjModel* sleep_model(int ntree, int mask, int shape) {
   if (SM && sm_n == ntree && sm_mask == mask && sm_shape == shape) return SM;
@@ -204,6 +255,54 @@ int main(void) {
       printf("%d %d %016llx %016llx %d", err, fin, to_bits(d->time), to_bits(m->opt.timestep), n);
       for (int k = 0; k < mjNWARNING; k++) printf(" %d %d", d->warning[k].number, d->warning[k].lastinfo);
       printf(" %d %d %d %d\n", nidx, m->nv, nva, dof);
+      mj_deleteData(d);
+    } else if (op == 'K' || op == 'W') {
+      // K cseed pre_n pre_l ninj (idx bits)*  : mj_forward on the multi-input model with controls 0.1*(i+1) and injected values
+      //    -> nu nactuator | (limited lo hi)*nu | ctrl*nu | BADCTRL number lastinfo | zeroed (forces and act_dot equal to the all-zero-control reference)
+      // W cseed integrator autoreset idx bits nsteps : mj_step with the injected control -> like S
+      unsigned long long seed = strtoull(p, &p, 10);
+      mjModel* m = ctrl_model(seed);
+      if (!m) { printf("ERR compile\n"); fflush(stdout); continue; }
+      mjData* d = mj_makeData(m);
+      m->opt.disableflags &= ~mjDSBL_AUTORESET;
+      for (int i = 0; i < m->nu; i++) d->ctrl[i] = 0.1 * (i + 1);
+      if (op == 'K') {
+        int pre_n = (int)strtol(p, &p, 10), pre_l = (int)strtol(p, &p, 10), ninj = (int)strtol(p, &p, 10);
+        for (int t = 0; t < 3; t++) mj_step(m, d);
+        mjData* ref = mj_makeData(m); mj_copyData(ref, m, d);
+        for (int k = 0; k < ninj; k++) { int idx = (int)strtol(p, &p, 10); unsigned long long b = strtoull(p, &p, 16); if (m->nu) d->ctrl[((idx % m->nu) + m->nu) % m->nu] = from_bits(b); }
+        d->warning[mjWARN_BADCTRL].number = pre_n; d->warning[mjWARN_BADCTRL].lastinfo = pre_l;
+        mju_zero(ref->ctrl, m->nu);
+        int err = 0;
+        if (MJG_TRY) { mj_forward(m, d); mj_forward(m, ref); MJG_END; } else err = 1;
+        printf("%d %d |", m->nu, m->nactuator);
+        for (int i = 0; i < m->nu; i++) printf(" %d %016llx %016llx", (int)m->actuator_ctrllimited[i], to_bits(m->actuator_ctrlrange[2 * i]), to_bits(m->actuator_ctrlrange[2 * i + 1]));
+        printf(" |"); for (int i = 0; i < m->nu; i++) printf(" %016llx", to_bits(d->ctrl[i]));
+        int nout = 0; for (int i = 0; i < m->nactuator; i++) nout += m->actuator_outnum[i];
+        int zeroed = same(d->actuator_force, ref->actuator_force, nout) && same(d->act_dot, ref->act_dot, m->na);
+        printf(" | %d %d | %d%s\n", d->warning[mjWARN_BADCTRL].number, d->warning[mjWARN_BADCTRL].lastinfo, zeroed, err ? " ERR" : "");
+        mj_deleteData(ref);
+      } else {
+        int integ = (int)strtol(p, &p, 10), autoreset = (int)strtol(p, &p, 10), idx = (int)strtol(p, &p, 10);
+        unsigned long long b = strtoull(p, &p, 16); int nsteps = (int)strtol(p, &p, 10);
+        int saved_int = m->opt.integrator; m->opt.integrator = integ;
+        for (int t = 0; t < 3; t++) mj_step(m, d);
+        d->time = 1.0;
+        if (!autoreset) m->opt.disableflags |= mjDSBL_AUTORESET;
+        int nidx = ((idx % m->nu) + m->nu) % m->nu;
+        d->ctrl[nidx] = from_bits(b);
+        int err = 0;
+        if (MJG_TRY) { for (int s2 = 0; s2 < nsteps; s2++) mj_step(m, d); MJG_END; } else err = 1;
+        m->opt.integrator = saved_int; m->opt.disableflags &= ~mjDSBL_AUTORESET;
+        int fin = isfinite(d->time) ? 1 : 0;
+        for (int i = 0; i < m->nq; i++) if (!isfinite(d->qpos[i])) fin = 0;
+        for (int i = 0; i < m->nv; i++) if (!isfinite(d->qvel[i])) fin = 0;
+        for (int i = 0; i < m->na; i++) if (!isfinite(d->act[i])) fin = 0;
+        printf("%d %d %016llx %016llx %d", err, fin, to_bits(d->time), to_bits(m->opt.timestep), m->nu);
+        for (int k = 0; k < mjNWARNING; k++) printf(" %d %d", d->warning[k].number, d->warning[k].lastinfo);
+        printf(" %d %d %d %d %016llx %016llx\n", nidx, m->nu, m->nactuator, (int)m->actuator_ctrllimited[nidx],
+               to_bits(m->actuator_ctrlrange[2 * nidx]), to_bits(m->actuator_ctrlrange[2 * nidx + 1]));
+      }
       mj_deleteData(d);
     } else {
       printf("ERR op\n");
